@@ -19,6 +19,8 @@ def specs(tier):
          gridlab.tokamak_spec("lsn", fpol="const", options={"finecontour_Nfine": 120, "finecontour_atol": 1.0e-3}, extract=ex),
          # the option that modifies Bpxy at the y-faces next to an X-point (it acts when Bp > 0: psi increasing outward)
          gridlab.tokamak_spec("ldn", fpol="linear", options={"cap_Bp_ylow_xpoint": True}, extract=ex)]
+    # the curvature smoothing option must leave zShift, dphidy and ShiftTorsion alone
+    S.append(gridlab.tokamak_spec("lsn", fpol="linear", options={"curvature_smoothing": "smoothnl"}, extract=ex))
     # a grid on which no two options that could be confused coincide (see gridlab.odd_spec)
     S.append(gridlab.odd_spec("lsn", True, extract=ex))
     if tier == "thorough":
